@@ -42,7 +42,7 @@ def run(ck, prog, ctx):
                 else:
                     diffs.append("%s differ: %s vs %s" % (f, ka[f] if not isinstance(ka[f], frozenset) else sorted(ka[f]), kb[f] if not isinstance(kb[f], frozenset) else sorted(kb[f])))
         ck.ob("SIBLING", "%s~%s" % (a, b), not diffs, "%s and %s %s" % (a, b, "have equal kernels" if not diffs else "disagree: " + "; ".join(diffs)), where=ba.where())
-    ck.floor("SIBLING", "in-place/copying pairs", npairs, 3)
+    ck.floor("SIBLING", "in-place/copying pairs", npairs, 2)
 
     # ---------------------------------------------------------------- polarity of the filters
     def filter_closures(b):
@@ -109,7 +109,7 @@ def run(ck, prog, ctx):
             ck.ob("FIELD", "child_nodes/field", ok, "child_nodes tests membership in %s (expected the closure set all_parents)" % sorted(fl & {"all_parents", "parents", "children"}), where=fb.where(t.line))
             # receiver belongs to the inner (other) member, key is the candidate of the outer filter
             pol, _ = bool_polarity(fb, pvn, lambda c: c.res == "term::group::HpoGroup::contains")
-            ck.ob("SELECT", "child_nodes/polarity", pol == -1, "a candidate survives iff it is %s an ancestor of every other member" % ("NOT" if pol == -1 else "(positively)"), where=fb.where(t.line))
+            pol_line = t.line
             # quantifier: the predicate closure is consumed by `all` (or by !any)
             quant = None
             for ob in fam:
@@ -120,7 +120,15 @@ def run(ck, prog, ctx):
                 ck.undecided("SELECT", "child_nodes/quantifier", "quantifier over the other members not recognised", where=cn.where())
             else:
                 ob, ot = quant
-                ck.ob("SELECT", "child_nodes/quantifier", ot.callee.method == "all", "the test is quantified with Iterator::%s over the members" % ot.callee.method, where=ob.where(ot.line))
+                # survive  <=>  for EVERY other member: NOT an ancestor.   all(|m| !anc)  and  !any(|m| anc)  are the same test
+                outer, _o = bool_polarity(ob, pvn, lambda c: c.method in ("all", "any") and c.trait == "std::iter::Iterator")
+                q = ot.callee.method
+                if pol is None or outer is None:
+                    ck.undecided("SELECT", "child_nodes/polarity", "polarity of the membership test / of the quantified result not recognised", where=fb.where(pol_line))
+                else:
+                    good = (q == "all" and pol == -1 and outer == 1) or (q == "any" and pol == 1 and outer == -1)
+                    ck.ob("SELECT", "child_nodes/polarity", good, "a candidate survives iff %s%s(|member| %scandidate is an ancestor of member)%s" % ("!" if outer == -1 else "", q, "!" if pol == -1 else "", "" if good else " - expected `for every member: not an ancestor`"), where=fb.where(pol_line))
+                ck.ob("SELECT", "child_nodes/quantifier", q in ("all", "any"), "the test is quantified with Iterator::%s over the members" % q, where=ob.where(ot.line))
                 chain = adaptor_chain(ob, pvn, ot.args[0])
                 cut = [m for m in chain if m in TRUNCATING_ADAPTORS]
                 src = field_names(pv.of_operand(ob, ot.args[0]), "HpoSet")
@@ -148,10 +156,14 @@ def run(ck, prog, ctx):
                     inits.append(t.args[-1].int_value())
                 if (t.callee.res or "").endswith("HpoTerm::<'a>::categories") or (t.callee.res or "").endswith("HpoTerm::<'_>::categories"):
                     src.add("HpoTerm::categories")
+        # two idioms count one per occurrence:  entry(k).and_modify(|c| *c += 1).or_insert(1)   (first value 1, then +1)
+        #                                     *entry(k).or_insert(0) += 1                      (first value 0 + 1, then +1)
+        in_modify = any(t.callee.method == "and_modify" for fb in fam for _, t in fb.calls())
         if not incs or not inits:
-            ck.undecided("SELECT", "categories/count", "counting idiom (entry().and_modify(+1).or_insert(1)) not recognised", where=cg.where())
+            ck.undecided("SELECT", "categories/count", "counting idiom (entry().and_modify(+1).or_insert(1)  /  *entry().or_insert(0) += 1) not recognised", where=cg.where())
         else:
-            ck.ob("SELECT", "categories/count", set(incs) == {1} and set(inits) == {1} and src == {"HpoTerm::categories"}, "category counts start at %s and grow by %s per member category (expected 1 and 1)" % (sorted(set(inits)), sorted(set(incs))), where=cg.where())
+            first = {i + (0 if in_modify else 1) for i in inits} if set(incs) == {1} else set()
+            ck.ob("SELECT", "categories/count", set(incs) == {1} and first == {1} and src == {"HpoTerm::categories"}, "category counts start at %s%s and grow by %s per member category: the first occurrence counts %s (expected 1), every further one +1" % (sorted(set(inits)), "" if in_modify else " + the increment", sorted(set(incs)), sorted(first) or "?"), where=cg.where())
 
     # ---------------------------------------------------------------- KIND K1
     for name, kind in (("gene_ids", "Gene"), ("omim_disease_ids", "Omim"), ("orpha_disease_ids", "Orpha")):
